@@ -528,6 +528,17 @@ func BuildDoc(r *kit.Rand, cfg DocConfig) (*Doc, error) {
 
 		case k <= 3: // Put
 			ref := newRef()
+			if cfg.WithRejected && r.Chance(1, 4) {
+				// a call that is refused after the reference has been looked at:
+				// the reference stays usable (it is used by the Put below)
+				_, err := w.OpenStream(ref, pdf.Dict{"Refused": pdf.Boolean(true)}, pdf.FilterFlate{Columns: 5})
+				expectRefused("OpenStream-invalid-filter", err)
+				if r.Bool() {
+					// ... or stays unwritten for good
+					d.Unwritten = append(d.Unwritten, ref)
+					ref = newRef()
+				}
+			}
 			obj := genObj(3, true)
 			if r.Chance(1, 25) {
 				obj = kit.Pick(r, refPool()) // an indirect object that is itself a reference
@@ -641,6 +652,18 @@ func BuildDoc(r *kit.Rand, cfg DocConfig) (*Doc, error) {
 				rest = rest[k:]
 				if r.Chance(1, 4) {
 					r2 := alloc()
+					if r.Chance(1, 4) {
+						// a stream object, handed over as a whole
+						sd := pdf.Dict{"K": pool[r.Intn(len(pool))].val, "Deferred": pdf.Boolean(true)}
+						sb := streamBody(r, cfg.PlainBodies)
+						a2 := shared{val: sd, snap: Clone(sd)}
+						if err := w.Put(r2, pdf.NewStream(sd, bytes.Clone(sb))); err != nil {
+							return d, fmt.Errorf("%s: Put(stream) while stream open: %w", cfg.String(), err)
+						}
+						dargs = append(dargs, a2)
+						deferred = append(deferred, &WObj{Ref: r2, Value: a2.snap, IsStream: true, Body: sb, Deferred: true})
+						continue
+					}
 					o2 := genObj(2, true)
 					a2 := shared{val: o2, snap: Clone(o2)}
 					if err := w.Put(r2, o2); err != nil {
